@@ -195,8 +195,10 @@ def _exit_tag(blk, tag, tagging):
             continue
         if s["sk"] == "assign" and not s["pl"]["p"]:
             rv = s["rv"]
-            if rv["rk"] == "agg" and rv.get("ak") == "adt" and rv.get("adt") == "std::result::Result":
+            if rv["rk"] == "agg" and rv.get("ak") == "adt" and rv.get("adt") == "std::result::Result" and tagging in (True, "std::result::Result"):
                 tag = OK if rv.get("variant") == "Ok" else ERR
+            elif rv["rk"] == "agg" and rv.get("ak") == "adt" and rv.get("adt") == tagging and "vidx" in rv:
+                tag = "v%d" % int(rv["vidx"])          # which variant of the returned enum was built on this path
             else:
                 tag = UNK
         else:
@@ -210,7 +212,10 @@ def _term_tag(t, tag, tagging):
     if t["tk"] == "call" and t["dest"]["l"] == 0:
         name = t.get("resolved") or t.get("callee") or ""
         if not t["dest"]["p"] and (name.endswith("::from_residual") or (t.get("callee") or "").endswith("::from_residual")):
-            return ERR
+            if tagging in (True, "std::result::Result"):
+                return ERR
+            if tagging == "std::option::Option":
+                return "v0"
         return UNK
     return tag
 
@@ -291,7 +296,7 @@ def _goto(t, src):
 # continuation threading in the caller
 
 
-def _thread(B, c0, r_local):
+def _thread(B, c0, r_local, tagging=True, tags=(OK, ERR)):
     """From block c0 (where the helper's result in r_local becomes available) follow the straight
     line to the switch that tests it for Ok/Err.  Returns {OK: block, ERR: block} - entry blocks of
     two copies of that line ending in a jump to the respective arm - or {} if there is no such
@@ -336,17 +341,27 @@ def _thread(B, c0, r_local):
                         tested = s["rv"]["pl"]["l"]
                     break
             arms = {int(a[0]): a[1] for a in t["arms"]}
-            if tested is not None and (tested in try_dest or
-                                       (tested in carriers and B.locals[tested].startswith("std::result::Result"))):
-                ok_t = arms.get(0, t["otherwise"])
-                err_t = arms.get(1, t["otherwise"])
-                found = (ok_t, err_t)
+            head = "std::result::Result" if tagging is True else tagging
+            if tested is not None and (tested in try_dest or (tested in carriers and B.locals[tested].startswith(head))):
+                found = {}
+                for tg in tags:
+                    if tg == OK:
+                        found[tg] = arms.get(0, t["otherwise"])
+                    elif tg == ERR:
+                        found[tg] = arms.get(1, t["otherwise"])
+                    elif isinstance(tg, str) and tg.startswith("v") and tg[1:].isdigit():
+                        v = int(tg[1:])
+                        if tested in try_dest:
+                            v = 0 if v == 1 else 1          # Option: Some -> Continue(0), None -> Break(1)
+                        found[tg] = arms.get(v, t["otherwise"])
             break
         return {}
     if not found:
         return {}
     out = {}
-    for tag, target in ((OK, found[0]), (ERR, found[1])):
+    for tag, target in sorted(found.items()):
+        if target is None:
+            continue
         base = len(B.blocks)
         for k, b in enumerate(chain):
             blk = copy.deepcopy(B.blocks[b])
@@ -370,7 +385,18 @@ def _thread(B, c0, r_local):
 
 
 def _is_result(h):
-    return (h.ret or "").startswith("std::result::Result<")
+    """What the return-path tags of helper `h` distinguish: the Ok / Err of a Result, or the variant of a crate-local
+    enum / of an Option it returns (a classification helper: `fn compare_to_basis(..) -> BasisMatch`); False if neither."""
+    ret = h.ret or ""
+    if ret.startswith("std::result::Result<"):
+        return "std::result::Result"
+    head = ret.split("<", 1)[0].strip()
+    if head == "std::option::Option":
+        return head
+    adt = getattr(h.crate, "adts", {}).get(head)
+    if adt is not None and adt.get("enum"):
+        return head
+    return False
 
 
 def _add_locals(B, h, offL):
@@ -390,14 +416,14 @@ def _inline_sync_site(B, i, h):
     offL = len(B.locals)
     _add_locals(B, h, offL)
     offB = len(B.blocks)
-    tagging = _is_result(h) and not t["dest"]["p"]
+    tagging = _is_result(h) if not t["dest"]["p"] else False
     blocks, exits = _copy_body(h, offL, offB, tagging)
     B.blocks.extend(blocks)
     for k, a in enumerate(t["args"]):
         B.blocks[i]["stmts"].append(_assign({"l": offL + 1 + k, "p": []}, _use(copy.deepcopy(a)), t.get("line")))
     cont = t["t"]
     B.blocks[i]["term"] = _goto(offB, t)
-    conts = _thread(B, cont, t["dest"]["l"]) if tagging else {}
+    conts = _thread(B, cont, t["dest"]["l"], tagging, sorted({tg for _, tg in exits if tg not in (NONE, UNK)})) if tagging else {}
     for nb, tag in exits:
         blk = B.blocks[nb]
         blk["stmts"].append(_assign(copy.deepcopy(t["dest"]), _use(_mv(offL)), t.get("line")))
@@ -441,7 +467,7 @@ def _inline_async_site(B, ci, polls, cor):
         offL = len(B.locals)
         _add_locals(B, cor, offL)
         offB = len(B.blocks)
-        tagging = _is_result(cor) and not tp["dest"]["p"]
+        tagging = _is_result(cor) if not tp["dest"]["p"] else False
         blocks, exits = _copy_body(cor, offL, offB, tagging)
         B.blocks.extend(blocks)
         for k, a in enumerate(tp["args"][:2]):
@@ -449,7 +475,7 @@ def _inline_async_site(B, ci, polls, cor):
         ready = _ready_target(B, tp)
         cont = ready if ready is not None else tp["t"]
         B.blocks[pi]["term"] = _goto(offB, tp)
-        conts = _thread(B, cont, tp["dest"]["l"]) if (tagging and ready is not None) else {}
+        conts = _thread(B, cont, tp["dest"]["l"], tagging, sorted({tg for _, tg in exits if tg not in (NONE, UNK)})) if (tagging and ready is not None) else {}
         for nb, tag in exits:
             blk = B.blocks[nb]
             blk["stmts"].append(_assign(copy.deepcopy(tp["dest"]),
